@@ -971,7 +971,15 @@ def readGraph(input_file,
         # networkx seems to mismanage that and to cause a TypeError
         #
         try:
-            G = networkx.nx_pydot.read_dot(input_file)
+            # Same as networkx.nx_pydot.read_dot, which however takes
+            # the first graph of the file and, inside it, silently
+            # drops whatever is written inside a subgraph.
+            import pydot
+            dots = pydot.graph_from_dot_data(input_file.read())
+            if len(dots) != 1 or dots[0].get_subgraph_list():
+                raise ValueError('Dot file must contain one graph, '
+                                 'without subgraphs')
+            G = networkx.nx_pydot.from_pydot(dots[0])
             try:
                 # work around for a weird parse error in pydot, which
                 # adds an additiona vertex '\\n' in the graph.
